@@ -56,6 +56,7 @@ fn pat_tok(p: &Pat) -> Tok {
 fn expr_tok(e: &Expr) -> Tok {
     match e {
         Expr::Lit(l) => match &l.lit { syn::Lit::Str(s) => Tok::S(s.value()), syn::Lit::Int(i) => Tok::N(i.base10_digits().into()), _ => Tok::Other(ts(e)) },
+        Expr::Path(p) if p.path.segments.len() == 1 && p.path.segments[0].ident.to_string().chars().next().map(|c| c.is_lowercase()).unwrap_or(false) => Tok::Bind,
         Expr::Path(p) => Tok::V(p.path.segments.last().unwrap().ident.to_string()),
         Expr::Call(c) if ts(&c.func) == "Ok" && c.args.len() == 1 => expr_tok(&c.args[0]),
         Expr::MethodCall(m) if m.method == "to_string" || m.method == "into" => expr_tok(&m.receiver),
@@ -80,6 +81,8 @@ pub fn run(repo: &Path, out: &mut Out) {
         for p in v { files.push((module.to_string(), p)); }
     }
     let (mut structs, mut newtypes, mut enums, mut tables) = (vec![], vec![], vec![], vec![]);
+    let mut json_tables: Vec<String> = vec![];
+    let mut raw_tables: Vec<(String, String, String, String, String)> = vec![]; // module, self ty, trait, func, arms
     for (module, path) in &files {
         let Some(f) = parse_file(path) else { out.untranslated.push(format!("namespaces {} unparsable", path.display())); continue };
         let file = path.file_name().unwrap().to_string_lossy().to_string();
@@ -92,15 +95,16 @@ pub fn run(repo: &Path, out: &mut Out) {
                             let (rename, many, dynamic) = isomdl_attrs(&fld.attrs);
                             let rust = fld.ident.as_ref().unwrap().to_string();
                             let (ty, optional) = match option_inner(&fld.ty) { Some(t) => (ts(t), true), None => (ts(&fld.ty), false) };
-                            fs.push(format!("    {{ name := {}, ty := \"{}\", optional := {}, mode := {} }}", bytes(&rename.unwrap_or(rust)), ty, optional, if many { ".many" } else if dynamic { ".dynamic" } else { ".plain" }));
+                            fs.push(format!("    {{ name := {}, ty := \"{}\", tyB := {}, optional := {}, mode := {} }}", bytes(&rename.unwrap_or(rust)), ty, bytes(&ty), optional, if many { ".many" } else if dynamic { ".dynamic" } else { ".plain" }));
                         }
-                        structs.push(format!("  {{ module := \"{module}\", name := \"{}\", fromJson := {}, toCbor := {}, fields := [\n{}] }}", s.ident, derives(&s.attrs, "FromJson"), derives(&s.attrs, "ToCbor"), fs.join(",\n")));
+                        structs.push(format!("  {{ module := \"{module}\", name := \"{}\", nameB := {}, fromJson := {}, toCbor := {}, fields := [\n{}] }}", s.ident, bytes(&s.ident.to_string()), derives(&s.attrs, "FromJson"), derives(&s.attrs, "ToCbor"), fs.join(",\n")));
                     }
                     syn::Fields::Unnamed(u) if u.unnamed.len() == 1 => newtypes.push(format!("  (\"{module}\", \"{}\", \"{}\")", s.ident, ts(&u.unnamed[0].ty))),
                     _ => out.untranslated.push(format!("namespaces::{module}::{} unsupported struct shape", s.ident)),
                 },
                 syn::Item::Enum(e) if e.ident != "Error" => {
                     let vs: Vec<String> = e.variants.iter().map(|v| format!("({}, {})", bytes(&v.ident.to_string()), v.fields.is_empty())).collect();
+                    if derives(&e.attrs, "EnumString") { json_tables.push(format!("{{\"module\": {:?}, \"ty\": {:?}, \"func\": \"strum\", \"literals\": [{}]}}", module, e.ident.to_string(), e.variants.iter().map(|v| format!("{:?}", v.ident.to_string())).collect::<Vec<_>>().join(", "))); }
                     enums.push(format!("  {{ module := \"{module}\", name := \"{}\", strum := {}, variants := [{}] }}", e.ident, derives(&e.attrs, "EnumString"), vs.join(", ")));
                 }
                 syn::Item::Impl(im) => {
@@ -112,6 +116,9 @@ pub fn run(repo: &Path, out: &mut Out) {
                         // only tables: at least two literal/variant arms
                         if arms.iter().filter(|(p, r)| !matches!(p, Tok::Bind | Tok::Other(_)) && !matches!(r, Tok::Other(_))).count() < 2 { continue; }
                         let arms_l: Vec<String> = arms.iter().map(|(p, r)| format!("({}, {})", p.lean(), r.lean())).collect();
+                        let lits: Vec<String> = arms.iter().filter_map(|(p, _)| match p { Tok::S(s) => Some(format!("{:?}", s)), Tok::N(n) => Some(n.clone()), _ => None }).collect();
+                        if !lits.is_empty() { json_tables.push(format!("{{\"module\": {:?}, \"ty\": {:?}, \"func\": {:?}, \"literals\": [{}]}}", module, self_ty, m.sig.ident.to_string(), lits.join(", "))); }
+                        raw_tables.push((module.clone(), self_ty.clone(), tr.clone(), m.sig.ident.to_string(), arms_l.join(", ")));
                         tables.push(format!("  {{ module := \"{module}\", file := \"{file}\", ty := \"{self_ty}\", trait_ := \"{tr}\", func := \"{}\", scrutinee := \"{}\", arms := [\n    {}] }}",
                             m.sig.ident, ts(&mm.expr).replace('"', "'"), arms_l.join(",\n    ")));
                     } }
@@ -120,14 +127,26 @@ pub fn run(repo: &Path, out: &mut Out) {
             }
         }
     }
+    // (type, parse arms, print arms): the two directions of every code table, paired by type
+    let mut pairs = vec![];
+    for (module, ty, tr, func, arms) in &raw_tables {
+        let is_parse = (func == "from_str" || func == "try_from" || (func == "from" && tr == "From<String>")) && ty != "u8" && ty != "String";
+        if !is_parse { continue; }
+        let print = raw_tables.iter().find(|(m2, ty2, tr2, f2, _)| m2 == module && ((ty2 == ty && (f2 == "to_str" || f2 == "as_str")) || (*tr2 == format!("From<{ty}>") && f2 == "from")));
+        match print {
+            Some((_, _, _, _, parms)) => pairs.push(format!("  ({}, [{}], [{}])", bytes(&format!("{module}::{ty}")), arms, parms)),
+            None => out.untranslated.push(format!("namespaces::{module}::{ty} parse table without a print table")),
+        }
+    }
     let lean = format!("/- GENERATED by rust/xlate (T3/T4 namespace schemas and code tables) from /repo/src/definitions/namespaces on every run. Do not edit. -/\nnamespace IsoMdl.Generated.Ns\n\n\
 inductive Mode where | plain | many | dynamic\n  deriving DecidableEq, Repr\n\n\
-structure Field where\n  name : List UInt8\n  ty : String\n  optional : Bool\n  mode : Mode\n  deriving Repr\n\n\
-structure Struct where\n  module : String\n  name : String\n  fromJson : Bool\n  toCbor : Bool\n  fields : List Field\n  deriving Repr\n\n\
+structure Field where\n  name : List UInt8\n  ty : String\n  tyB : List UInt8\n  optional : Bool\n  mode : Mode\n  deriving Repr\n\n\
+structure Struct where\n  module : String\n  name : String\n  nameB : List UInt8\n  fromJson : Bool\n  toCbor : Bool\n  fields : List Field\n  deriving Repr\n\n\
 structure Enum where\n  module : String\n  name : String\n  strum : Bool\n  variants : List (List UInt8 × Bool)\n  deriving Repr\n\n\
 inductive Tok where | s (b : List UInt8) | n (k : Nat) | v (name : List UInt8) | bind | other\n  deriving DecidableEq, Repr\n\n\
 structure Table where\n  module : String\n  file : String\n  ty : String\n  trait_ : String\n  func : String\n  scrutinee : String\n  arms : List (Tok × Tok)\n  deriving Repr\n\n\
-def structs : List Struct := [\n{}]\n\ndef newtypes : List (String × String × String) := [\n{}]\n\ndef enums : List Enum := [\n{}]\n\ndef tables : List Table := [\n{}]\n\nend IsoMdl.Generated.Ns\n",
-        structs.join(",\n"), newtypes.join(",\n"), enums.join(",\n"), tables.join(",\n"));
+def structs : List Struct := [\n{}]\n\ndef newtypes : List (String × String × String) := [\n{}]\n\ndef enums : List Enum := [\n{}]\n\ndef tables : List Table := [\n{}]\n\n/-- (module::type, parse arms, print arms) -/\ndef pairs : List (List UInt8 × List (Tok × Tok) × List (Tok × Tok)) := [\n{}]\n\nend IsoMdl.Generated.Ns\n",
+        structs.join(",\n"), newtypes.join(",\n"), enums.join(",\n"), tables.join(",\n"), pairs.join(",\n"));
     out.files.insert("Namespaces.lean".into(), lean);
+    out.files.insert("ns_tables.json".into(), format!("[\n{}\n]\n", json_tables.join(",\n")));
 }
